@@ -50,6 +50,22 @@ Definition run_lower (cmd : string) (arg : sexp) : sexp :=
       end
     | _ => bad "lower_reduce: expected (name din dout graph)"
     end
+  else if String.eqb cmd "lower_reduce_auto" then
+    (* the description was written without brackets: the model brackets the axes missing from the output itself *)
+    match arg with
+    | L [fn; din; dout; g] =>
+      match dS fn, dec_dims din, dec_dims dout, dTm 500 g with
+      | Some fn, Some din, Some dout, Some g =>
+        match single din, single dout with
+        | Some pin, Some pout =>
+          let m := lower_reduce fn (automark pin pout) pout in
+          L [A "lower"; sB (reduce_ok (automark pin pout) pout && forallb plain pin); sB (equiv m g); sB (wf_tm m); sB (wf_tm g); sNat (tsize (norm m)); sNat (tsize (norm g))]
+        | _, _ => A "not_single"
+        end
+      | _, _, _, _ => bad "lower_reduce_auto: cannot decode"
+      end
+    | _ => bad "lower_reduce_auto: expected (name din dout graph)"
+    end
   else if String.eqb cmd "lower_dot" then
     match arg with
     | L [d1; d2; dout; g] =>
